@@ -263,6 +263,14 @@ func solveAll(qs []*Query, timeout int, par int) []*QResult {
 			groundCandidate(dir, i, qs[i], results[i])
 		}
 	}
+	// counterexamples: prefer small inputs (replay drivers rebuild inputs from the first elements)
+	var sats []int
+	for i, r := range results {
+		if r.Status == "sat" && !r.Q.Cover {
+			sats = append(sats, i)
+		}
+	}
+	runStage(sats, par, func(i int) *QResult { return smallModel(dir, i, qs[i], results[i]) })
 	return results
 }
 
@@ -333,6 +341,39 @@ func solveRace(dir string, id int, q *Query, timeout int, prev *QResult) *QResul
 	}
 	if best.el == 0 {
 		r.Secs = total + prev.Secs
+	}
+	return r
+}
+
+// smallModel re-solves a satisfiable query with every reported length bounded by 24; when that is
+// still satisfiable its model replaces the original one.
+func smallModel(dir string, id int, q *Query, r *QResult) *QResult {
+	var bounds []string
+	for k, n := range q.ValNames {
+		if strings.HasPrefix(n, "len(") && k < len(q.GetVals) {
+			t := q.GetVals[k]
+			if strings.Contains(q.Script, "(_ BitVec 64)") && !strings.Contains(q.Script, "(declare-fun slen (Str) Int)") {
+				bounds = append(bounds, fmt.Sprintf("(assert (bvule %s #x0000000000000018))", t))
+			} else {
+				bounds = append(bounds, fmt.Sprintf("(assert (<= %s 24))", t))
+			}
+		}
+	}
+	if len(bounds) == 0 {
+		return r
+	}
+	script := strings.Replace(q.Script, "(check-sat)", strings.Join(bounds, "\n")+"\n(check-sat)", 1)
+	sp := solvers[0]
+	for _, x := range solvers {
+		if x.name == r.Solver {
+			sp = x
+		}
+	}
+	st, out, _ := runSolver(context.Background(), sp, dir, 500000+id, script, 10)
+	if st == "sat" {
+		r.Values = parseValues(out, q)
+		r.Output = out
+		r.Attempt = append(r.Attempt, "small-model:sat")
 	}
 	return r
 }
@@ -444,6 +485,7 @@ type ObligResult struct {
 	Secs    float64
 	Sites   int
 	Failing *QResult
+	AllFailing []*QResult
 	Pos     string
 	Src     string
 }
@@ -473,6 +515,9 @@ func summarise(rs []*QResult) []*ObligResult {
 		if r.Q.Cover {
 			ok = r.Status == "sat" || r.Status == "unknown" || r.Status == "timeout"
 			// a cover query that is unsat means the contract is vacuous
+		}
+		if !ok {
+			o.AllFailing = append(o.AllFailing, r)
 		}
 		if !ok && o.Failing == nil {
 			o.Failing = r
